@@ -669,23 +669,33 @@ Definition nview_id (n : nview) : option aval := match n with NNode _ i _ _ _ =>
 Section Passes.
   Variable node_loader : env -> et -> outcome nview.
 
-  (* library_nodes: loaded nodes are visible through collada.nodes at once *)
-  Fixpoint lib_pass (en : env) (todo : list et) (loaded : list nview) (pending : list et) (progress : bool)
-    : outcome (env * list nview * list et * bool) :=
+  (* sorted(nodes, key=position): stable insertion sort *)
+  Fixpoint insert_pos (x : nat * nview) (l : list (nat * nview)) : list (nat * nview) :=
+    match l with
+    | [] => [x]
+    | y :: r => if Nat.ltb (fst x) (fst y) then x :: y :: r else y :: insert_pos x r
+    end.
+  Definition sort_pos (l : list (nat * nview)) : list (nat * nview) := fold_left (fun acc x => insert_pos x acc) l [].
+
+  Definition with_nodes (en : env) (nodes : lib) : env :=
+    mkEnv (e_num en) (e_geoms en) (e_ctrls en) (e_lights en) (e_cams en) (e_mats en) nodes (e_local en).
+
+  (* library_nodes: loaded nodes are visible through collada.nodes at once; every loaded node
+     remembers its position among the <node> children *)
+  Fixpoint lib_pass (en : env) (todo : list (nat * et)) (loaded : list (nat * nview)) (pending : list (nat * et))
+           (progress : bool) : outcome (env * list (nat * nview) * list (nat * et) * bool) :=
     match todo with
     | [] => Ok (en, loaded, pending, progress)
-    | n :: r =>
+    | (pos, n) :: r =>
         match node_loader en n with
-        | Ok v => let en' := mkEnv (e_num en) (e_geoms en) (e_ctrls en) (e_lights en) (e_cams en) (e_mats en)
-                                   (e_nodes en ++ [(nview_id v, nview_uid v)]) (e_local en) in
-                  lib_pass en' r (loaded ++ [v]) pending true
-        | Raise PyOther => lib_pass en r loaded (pending ++ [n]) progress
+        | Ok v => lib_pass (with_nodes en (e_nodes en ++ [(nview_id v, nview_uid v)])) r (loaded ++ [(pos, v)]) pending true
+        | Raise PyOther => lib_pass en r loaded (pending ++ [(pos, n)]) progress
         | Raise x => Raise x
         end
     end.
 
-  Fixpoint lib_retry (fuel : nat) (en : env) (loaded : list nview) (pending : list et) (progress : bool)
-    : outcome (env * list nview) :=
+  Fixpoint lib_retry (fuel : nat) (en : env) (loaded : list (nat * nview)) (pending : list (nat * et)) (progress : bool)
+    : outcome (env * list (nat * nview)) :=
     match pending with
     | [] => Ok (en, loaded)
     | _ =>
@@ -698,9 +708,14 @@ Section Passes.
       else Raise DaeBrokenRef
     end.
 
+  (* since /repo e99e57c the nodes of one <library_nodes> end up in document order, whatever pass loaded them *)
   Definition load_library_nodes (en : env) (libnode : et) : outcome (env * list nview) :=
-    obind (lib_pass en (efindall a_node libnode) [] [] false) (fun r =>
-    let '(en', loaded, pending, progress) := r in lib_retry (S (length pending)) en' loaded pending progress).
+    let nodes := efindall a_node libnode in
+    obind (lib_pass en (combine (seq 0 (length nodes)) nodes) [] [] false) (fun r =>
+    let '(en', loaded, pending, progress) := r in
+    obind (lib_retry (S (length pending)) en' loaded pending progress) (fun r2 =>
+    let sorted := map snd (sort_pos (snd r2)) in
+    Ok (with_nodes (fst r2) (e_nodes en ++ map (fun v => (nview_id v, nview_uid v)) sorted), sorted))).
 
   (* visual_scene: a local scope of the top-level nodes that have an id (first definition wins);
      every loaded node remembers its position, the result is in document order (since /repo c91a4c8) *)
@@ -738,14 +753,6 @@ Section Passes.
         end
       else Raise DaeBrokenRef
     end.
-
-  (* sorted(nodes, key=position): stable insertion sort *)
-  Fixpoint insert_pos (x : nat * nview) (l : list (nat * nview)) : list (nat * nview) :=
-    match l with
-    | [] => [x]
-    | y :: r => if Nat.ltb (fst x) (fst y) then x :: y :: r else y :: insert_pos x r
-    end.
-  Definition sort_pos (l : list (nat * nview)) : list (nat * nview) := fold_left (fun acc x => insert_pos x acc) l [].
 
   Definition load_scene (en : env) (s : et) : outcome (option aval * N * list nview) :=
     let en0 := mkEnv (e_num en) (e_geoms en) (e_ctrls en) (e_lights en) (e_cams en) (e_mats en) (e_nodes en) [] in
